@@ -633,6 +633,8 @@ structure Sys where
   /-- `parse_errors: defaultdict(set)`: section ↦ names; a key can exist with an empty set -/
   parseErrors : List (Nat × List Nat) := []
   onceMsgs : List (Nat × Nat) := []
+  /-- `reported_errors`: (section, object, phase) triples `reportErrors` has reported already -/
+  reportedErrors : List (Nat × Nat × Nat) := []
   verbosity : Int := 0
   printed : Nat := 0
   deriving Repr, Inhabited
@@ -679,16 +681,20 @@ def Sys.reportN (s : Sys) (sec : Nat) : List Nat → Sys
 ```
 if not errs: return
 errors = obj.system.parse_errors[section]
-if obj.fullName() not in errors:
+reported = obj.system.reported_errors
+if (section, obj, phase) not in reported:       # the object itself (b867a76), once per phase
+    reported.add((section, obj, phase))
     errors.add(obj.fullName())
     for err in errs: obj.report(...)
-``` -/
-def Sys.reportErrors (s : Sys) (sec obj : Nat) (errs : List Nat) : Sys :=
+```
+`obj` identifies the object, `name` its full name at that moment; `phase` 0 = 'parsing', 1 = 'rendering'. -/
+def Sys.reportErrors (s : Sys) (sec obj : Nat) (errs : List Nat) (phase : Nat := 0) (name : Nat := obj) : Sys :=
   if errs.isEmpty then s
   else
     let s1 := { s with parseErrors := touch sec s.parseErrors }
-    if ((lookup sec s1.parseErrors).getD []).contains obj then s1
-    else ({ s1 with parseErrors := addName sec obj s1.parseErrors }).reportN sec errs
+    if s1.reportedErrors.contains (sec, obj, phase) then s1
+    else ({ s1 with reportedErrors := (sec, obj, phase) :: s1.reportedErrors
+                    parseErrors := addName sec name s1.parseErrors }).reportN sec errs
 
 def anyParseErrors (s : Sys) : Bool := s.parseErrors.any fun p => !p.2.isEmpty
 
